@@ -133,3 +133,39 @@ def ends_in_raise(stmts):
     if isinstance(last, ast.With):
         return ends_in_raise(last.body)
     return False
+
+
+def expand_locals(funcnode, expr, depth=6):
+    """a copy of `expr` in which every local that the function assigns exactly once (`name = value`, a plain
+    statement of the function body) is replaced by its value: `a = f(x); b = g(a); return h(b)` reads as
+    `h(g(f(x)))` whatever the intermediate names are.  Positions are kept for reports."""
+    assigns = {}
+    counts = {}
+    for n in ast.walk(funcnode):
+        if isinstance(n, ast.Name) and isinstance(n.ctx, ast.Store):
+            counts[n.id] = counts.get(n.id, 0) + 1
+    for st in funcnode.body:
+        if isinstance(st, ast.Assign) and len(st.targets) == 1 and isinstance(st.targets[0], ast.Name):
+            assigns[st.targets[0].id] = st.value
+    params = {a.arg for a in funcnode.args.args + funcnode.args.kwonlyargs}
+
+    class Sub(ast.NodeTransformer):
+        def __init__(self, d):
+            self.d = d
+
+        def visit_Name(self, n):
+            if isinstance(n.ctx, ast.Load) and n.id in assigns and counts.get(n.id) == 1 and n.id not in params and self.d > 0:
+                import copy
+                v = ast.parse(ast.unparse(assigns[n.id]), mode="eval").body
+                for x in ast.walk(v):
+                    ast.copy_location(x, assigns[n.id]) if not hasattr(x, "lineno") else None
+                    x.lineno = getattr(assigns[n.id], "lineno", 0)
+                    x.col_offset = getattr(assigns[n.id], "col_offset", 0)
+                return Sub(self.d - 1).visit(v)
+            return n
+
+    e = ast.parse(ast.unparse(expr), mode="eval").body
+    for x in ast.walk(e):
+        x.lineno = getattr(expr, "lineno", 0)
+        x.col_offset = getattr(expr, "col_offset", 0)
+    return Sub(depth).visit(e)
